@@ -167,11 +167,12 @@ func handleSubStr(params internal.HandlerFuncParams) ([]byte, error) {
 	str := value[start:end]
 
 	if reversed {
-		res := ""
+		// Reverse byte by byte so that multi-byte values are not re-encoded.
+		res := make([]byte, 0, len(str))
 		for i := len(str) - 1; i >= 0; i-- {
-			res = res + string(str[i])
+			res = append(res, str[i])
 		}
-		str = res
+		str = string(res)
 	}
 
 	return []byte(fmt.Sprintf("$%d\r\n%s\r\n", len(str), str)), nil
